@@ -38,6 +38,38 @@ pub use implementation::ConsumingIovec;
 pub use implementation::OwningIovec;
 pub use implementation::StableIovec;
 
+/// Verification hooks (only with `--cfg woodpile_verif_arena`).
+#[cfg(woodpile_verif_arena)]
+#[allow(missing_docs, dead_code)]
+#[doc(hidden)]
+pub mod verif_hooks {
+    /// Parses "a,b" (decimal) at compile time.
+    pub const fn parse_pair(value: Option<&str>, default: (usize, usize)) -> (usize, usize) {
+        let bytes = match value {
+            Some(value) => value.as_bytes(),
+            None => return default,
+        };
+
+        let mut ret = [0usize; 2];
+        let mut idx = 0;
+        let mut i = 0;
+        while i < bytes.len() {
+            let byte = bytes[i];
+            if byte == b',' {
+                idx += 1;
+                assert!(idx < 2);
+            } else {
+                assert!(byte >= b'0' && byte <= b'9');
+                ret[idx] = ret[idx] * 10 + (byte - b'0') as usize;
+            }
+            i += 1;
+        }
+
+        assert!(idx == 1);
+        (ret[0], ret[1])
+    }
+}
+
 impl std::io::Read for ConsumingIovec<'_> {
     fn read(&mut self, mut dst: &mut [u8]) -> std::io::Result<usize> {
         let mut written = 0;
